@@ -48,7 +48,7 @@ use crate::{
     indexer::{Indexer, sentry::Sentry},
     inflight::{
         Enqueue, FetchOrTake, FetchTarget, InflightManager, Notifier, OptionalFetch, OptionalFetchBuilder,
-        RequiredFetch, RequiredFetchBuilder, Waiter,
+        RequiredFetch, RequiredFetchBuilder, Taken, Waiter,
     },
     pipe::{ArcPipe, NoopPipe},
     record::{Data, Record},
@@ -137,18 +137,19 @@ where
         }
     }
 
-    #[expect(clippy::type_complexity)]
     fn emplace(
         &mut self,
         record: Arc<Record<E>>,
         garbages: &mut Vec<(Event, Arc<Record<E>>)>,
-        notifiers: &mut Vec<Notifier<Option<RawCacheEntry<E, S, I>>>>,
+        taken: &mut Taken<E, S, I>,
     ) {
-        *notifiers = self
+        // The taken inflight owns a key clone: it is handed to the caller to be dropped out of the lock.
+        *taken = self
             .inflights
             .lock()
             .take(record.hash(), record.key(), None)
             .unwrap_or_default();
+        let notifiers = &taken.notifiers;
 
         if record.properties().phantom().unwrap_or_default() {
             if let Some(old) = self.indexer.remove(record.hash(), record.key()) {
@@ -594,13 +595,14 @@ where
     #[cfg_attr(feature = "tracing", fastrace::trace(name = "foyer::memory::raw::insert_inner"))]
     fn insert_inner(&self, record: Arc<Record<E>>, source: Source) -> RawCacheEntry<E, S, I> {
         let mut garbages = vec![];
-        let mut notifiers = vec![];
+        let mut taken = Taken::default();
 
         self.inner.shards[self.shard(record.hash())]
             .write()
-            .with(|mut shard| shard.emplace(record.clone(), &mut garbages, &mut notifiers));
+            .with(|mut shard| shard.emplace(record.clone(), &mut garbages, &mut taken));
 
         // Notify waiters out of the lock critical section.
+        let Taken { notifiers, .. } = taken;
         for notifier in notifiers {
             let _ = notifier.send(Ok(Some(RawCacheEntry {
                 pipe: self.pipe.clone(),
@@ -1383,9 +1385,9 @@ where
                 let required_fetch = required_fetch_builder(ctx);
                 Try::SetStateAndContinue(RawFetchState::FetchRequired { required_fetch })
             }
-            FetchOrTake::Notifiers(notifiers) => Try::SetStateAndContinue(RawFetchState::Notify {
+            FetchOrTake::Notifiers(taken) => Try::SetStateAndContinue(RawFetchState::Notify {
                 res: Some(res_no_fetch),
-                notifiers,
+                notifiers: taken.notifiers,
             }),
         }
     }
@@ -1415,15 +1417,15 @@ where
         key: &E::Key,
         inflights: &Arc<Mutex<InflightManager<E, S, I>>>,
     ) -> Try<E, S, I, C> {
-        let notifiers = match inflights.lock().take(hash, key, Some(id)) {
-            Some(notifiers) => notifiers,
+        let taken = match inflights.lock().take(hash, key, Some(id)) {
+            Some(taken) => taken,
             None => {
                 return Try::Ready;
             }
         };
         Try::SetStateAndContinue(RawFetchState::Notify {
             res: Some(Err(e)),
-            notifiers,
+            notifiers: taken.notifiers,
         })
     }
 
@@ -1461,12 +1463,13 @@ where
             RawFetchState::Notify { .. } | RawFetchState::Ready => return,
             RawFetchState::Init { .. } | RawFetchState::FetchOptional { .. } | RawFetchState::FetchRequired { .. } => {}
         }
-        if let Some(notifiers) = this
+        // Release the inflight lock before notifying and before dropping what was taken.
+        let taken = this
             .inflights
             .lock()
-            .take(*this.hash, this.key.as_ref().unwrap(), Some(*this.id))
-        {
-            for notifier in notifiers {
+            .take(*this.hash, this.key.as_ref().unwrap(), Some(*this.id));
+        if let Some(taken) = taken {
+            for notifier in taken.notifiers {
                 let _ =
                     notifier
                         .send(Err(Error::new(ErrorKind::TaskCancelled, "fetch task cancelled")
